@@ -12,7 +12,7 @@ from .report import AnalysisError, REPO
 
 C_FILES = ['dadi/integration_shared.c', 'dadi/integration1D.c', 'dadi/integration2D.c', 'dadi/integration3D.c',
            'dadi/integration4D.c', 'dadi/integration5D.c', 'dadi/tridiag.c', 'dadi/DFE/PDFs.c']
-TYPES = {'double', 'float', 'int', 'void', 'long', 'unsigned', 'const', 'char', 'static', 'size_t'}
+TYPES = {'double', 'float', 'int', 'void', 'long', 'unsigned', 'const', 'char', 'static', 'size_t', 'inline'}
 
 TOKEN_RE = re.compile(r'''
     (?P<num>(?:\d+\.\d*(?:[eE][-+]?\d+)?|\.\d+(?:[eE][-+]?\d+)?|\d+[eE][-+]?\d+|\d+)[fFlLuU]*)
@@ -621,7 +621,7 @@ def _clone(node):
 
 
 def _base_type(ctype):
-    words = [w for w in ctype.replace('*', ' * ').split() if w not in ('const', 'static', 'register', 'unsigned', 'signed', 'long', 'short')]
+    words = [w for w in ctype.replace('*', ' * ').split() if w not in ('const', 'static', 'inline', 'register', 'unsigned', 'signed', 'long', 'short')]
     if '*' in words:
         return None
     if 'double' in words or 'float' in words:
